@@ -737,6 +737,37 @@ def run(chk):
                           "nothing): the span's bits are cleared but it stays counted and cannot be released", key="shrinknonzero|%s" % gz.name.replace("asmjit::", ""))
     chk.floor(RZ + ":calls", nz, 2)
 
+    # ---------------------------------------------------------------- freed units are inside the search range afterwards
+    RW = "R-RELEASE-WIDENS-SEARCH"
+    chk.rule(RW, "JitAllocatorBlock::mark_released_area() / mark_shrunk_area(): every path through the function assigns both `_search_start` and "
+                 "`_search_end` (min / max with the freed range, the incremental shortcut included): the range that alloc() scans always contains "
+                 "the units that were just freed - a full block has _search_end = 0, and a path that moves only _search_start leaves its tail "
+                 "unreachable")
+    fw = chk.facts(UNIT, funcs=r"asmjit::JitAllocatorBlock::(mark_released_area|mark_shrunk_area)$")
+    nw = 0
+    for gw in cfg.load_functions(fw):
+        def w_elem(eid, x, gw=gw):
+            if x["k"] == "binop" and x["op"].endswith("=") and x["op"] not in ("==", "!=", "<=", ">="):
+                t = re.sub(r"\s+", "", gw.text(x["lhs"]))
+                for f_ in ("_search_start", "_search_end"):
+                    if t.endswith(f_):
+                        return ((("assigned", f_),), ())
+            return None
+        mw = Must(gw, w_elem, None)
+        exits = [b for b in gw.preds.get(gw.exit, [])] if gw.exit is not None else []      # (aborting assertion blocks never reach the exit)
+        st = None
+        for b in exits:
+            s_here = mw.at_block_end(b)
+            if s_here is None:
+                continue
+            st = set(s_here) if st is None else (st & set(s_here))
+        for f_ in ("_search_start", "_search_end"):
+            nw += 1
+            chk.ob(RW, "%s|%s" % (gw.name.replace("asmjit::", ""), f_), ("assigned", f_) in (st or set()), loc="%s:%d" % (UNIT, gw.line),
+                   detail="%s has a path that frees units without updating %s: the freed units can lie outside [_search_start, _search_end) and "
+                          "are then never found by alloc()" % (gw.name.replace("asmjit::", ""), f_), key="widens|%s|%s" % (gw.name.split("::")[-1], f_))
+    chk.floor(RW + ":fields", nw, 4)
+
     from lib import failpure
     failpure.run_wrapping_bounds(chk, [("asmjit/core/jitallocator.cpp", r"asmjit::JitAllocator[A-Za-z_0-9:]*$"), ("asmjit/core/virtmem.cpp", r"asmjit::VirtMem::[A-Za-z_0-9]+$"),
                                        ("asmjit/core/codeholder.cpp", r"asmjit::CodeHolder::(copy_section_data|copy_flattened_data|reserve_buffer|grow_buffer)$")],
